@@ -748,6 +748,16 @@ func (c *fctx) emitThreaded(e *emitter, ind int, at ast.Node, call *ast.CallExpr
 		args = append(args, c.expr(sel.X))
 	}
 	for i := 0; i < fsig.Params().Len(); i++ {
+		if fsig.Variadic() && i == fsig.Params().Len()-1 && !call.Ellipsis.IsValid() {
+			if _, ok := leanTypeOf(fsig.Params().At(i).Type()); !ok {
+				// ...interface{} (a printf-like callee): the remaining arguments one by one, each with its own type
+				for _, a := range call.Args[i:] {
+					ps = append(ps, c.leanType(at, c.typeOf(a)))
+					args = append(args, c.expr(a))
+				}
+				continue
+			}
+		}
 		ps = append(ps, c.leanType(at, fsig.Params().At(i).Type()))
 		if fsig.Variadic() && i == fsig.Params().Len()-1 && !call.Ellipsis.IsValid() {
 			var rest []string
